@@ -255,8 +255,10 @@ func (pc *pxCase) learnBranch(e int, msg []byte) {
 			continue
 		}
 		own := false
+		// a Via of the proxy's own making names a listener address: with a listener port, or with the OS-chosen
+		// local port of a connection the proxy dialled itself (nobody else lives on a listener address of the block)
 		for _, l := range pc.listens {
-			if m[1] == l.addr && (m[2] == strconv.Itoa(l.udp) || m[2] == strconv.Itoa(l.tcp)) {
+			if m[1] == l.addr {
 				own = true
 			}
 		}
